@@ -323,7 +323,19 @@ func (w *World) rulesPool(p *Pkg, sw *ssaWorld, fns []*ssa.Function, add func(ok
 					case *ssa.TypeAssert:
 						if _, ok := tainted[x]; !ok {
 							tainted[x] = "full"
+							if x.CommaOk {
+								tainted[x] = "tuple" // (slice, ok)
+							}
 							work = append(work, x)
+						}
+					case *ssa.Extract:
+						if kind == "tuple" && x.Index == 0 {
+							if _, ok := tainted[x]; !ok {
+								tainted[x] = "full"
+								work = append(work, x)
+							}
+						} else if kind != "tuple" {
+							note(x.Pos(), "unexpected use of the pooled slice (*ssa.Extract)")
 						}
 					case *ssa.Slice:
 						// [: split+1]
@@ -347,6 +359,14 @@ func (w *World) rulesPool(p *Pkg, sw *ssaWorld, fns []*ssa.Function, add func(ok
 							work = append(work, x)
 						}
 					case *ssa.IndexAddr:
+						if kind != "live" {
+							// the other accepted idiom: no reslice, the index is bounded by what split
+							// wrote — the access is dominated by the true branch of `index <= split(slice, …)`
+							if c := boundedBySplit(x, v, f); c != nil {
+								splitRes = c
+								kind = "live"
+							}
+						}
 						if kind != "live" {
 							note(x.Pos(), "an element of the un-resliced pooled slice is read: entries beyond what this call wrote are left over from earlier calls")
 						}
@@ -764,6 +784,14 @@ func (w *World) rulesBuf(p *Pkg, add func(ok bool, rule, inst string, pos token.
 			return true
 		}
 		bad := "an additional return path of Vector does not convert a buffer made in the call"
+		// string(buf) of the buffer made in the call: a fresh copy, private by construction
+		if len(r.Results) == 1 {
+			if c, ok := r.Results[0].(*ast.CallExpr); ok && len(c.Args) == 1 {
+				if tv, ok := info.Types[c.Fun]; ok && tv.IsType() && isStringT(tv.Type) && em.BufObj != nil && identObj(info, c.Args[0]) == em.BufObj && fresh {
+					return true
+				}
+			}
+		}
 		ast.Inspect(r, func(x ast.Node) bool {
 			u, ok := x.(*ast.UnaryExpr)
 			if !ok || u.Op != token.AND {
@@ -944,4 +972,60 @@ func withinNode(outer ast.Node, n ast.Node) bool {
 
 func init() {
 	registerGroup("effects", func(w *World, out *[]Obligation) { w.rulesEffects(out) })
+}
+
+// boundedBySplit: the element access x (on the pooled slice v) is dominated by
+// the true branch of a test `i <= r` or `i < r + 1` where i is x's index and r
+// the result of a package-local call that received the slice (split's count of
+// the last slot written). It returns that call.
+func boundedBySplit(x *ssa.IndexAddr, v ssa.Value, f *ssa.Function) ssa.Value {
+	isSplitCall := func(y ssa.Value) ssa.Value {
+		c, ok := y.(*ssa.Call)
+		if !ok {
+			return nil
+		}
+		callee := c.Common().StaticCallee()
+		if callee == nil || callee.Pkg != f.Pkg || len(c.Common().Args) < 1 {
+			return nil
+		}
+		for _, a := range c.Common().Args {
+			if a == v {
+				return c
+			}
+		}
+		return nil
+	}
+	for _, b := range f.Blocks {
+		if len(b.Instrs) == 0 {
+			continue
+		}
+		ifi, ok := b.Instrs[len(b.Instrs)-1].(*ssa.If)
+		if !ok || len(b.Succs) != 2 {
+			continue
+		}
+		bin, ok := ifi.Cond.(*ssa.BinOp)
+		if !ok || bin.X != x.Index {
+			continue
+		}
+		var call ssa.Value
+		switch bin.Op {
+		case token.LEQ:
+			call = isSplitCall(bin.Y)
+		case token.LSS:
+			if add, ok := bin.Y.(*ssa.BinOp); ok && add.Op == token.ADD {
+				if k, ok := add.Y.(*ssa.Const); ok && k.Value != nil && k.Int64() == 1 {
+					call = isSplitCall(add.X)
+				}
+			}
+		}
+		if call == nil {
+			continue
+		}
+		t := b.Succs[0]
+		// the true successor must be entered only from this test, and dominate the access
+		if len(t.Preds) == 1 && t.Dominates(x.Block()) {
+			return call
+		}
+	}
+	return nil
 }
